@@ -52,7 +52,7 @@ func powerIndexRules(r *Run, rule string) {
 	if f := r.fn(vT + "IsStaked"); f != nil {
 		for _, ret := range Returns(f) {
 			t := P.TermAt(ret.Results[0], ret).String()
-			r.Check(t == "(types.StakeStatus).Equal("+vT+"GetStatus(param:v), 2)" || t == "(param:v.Status == 2)", rule, "Validator.IsStaked", P.InstrPos(ret), t, "IsStaked is "+t)
+			r.Check(t == "(types.StakeStatus).Equal(param:v.Status, 2)" || t == "(param:v.Status == 2)", rule, "Validator.IsStaked", P.InstrPos(ret), t, "IsStaked is "+t)
 		}
 	}
 	if f := r.fn("(types.StakeStatus).Equal"); f != nil {
@@ -181,7 +181,7 @@ func checkC05(r *Run) {
 			at := argTerm(P.callTerm(a), 1).String()
 			r.Check(strings.HasPrefix(at, "list("+vT+"ABCIValidatorUpdateZero("+oldVal), "C05-R2", "UTV/removal-from-sorted-remainder", P.InstrPos(a), at, "zero-power update is built from "+at+" ; required: a key of sortNoLongerStakedValidators(prevStatePowerMap)")
 			dt := argTerm(P.callTerm(d), 2).String()
-			r.Check(strings.HasPrefix(dt, vT+"GetAddress("+oldVal), "C05-R2", "UTV/removal-forgets-same-validator", P.InstrPos(d), dt, "DeletePrevStateValPower forgets "+dt)
+			r.Check(strings.HasPrefix(dt, oldVal) && strings.HasSuffix(dt, ").Address"), "C05-R2", "UTV/removal-forgets-same-validator", P.InstrPos(d), dt, "DeletePrevStateValPower forgets "+dt)
 			r.Check(a.Block() == d.Block(), "C05-R2", "UTV/removal⇔memory", P.InstrPos(a), "zero update and memory delete are in the same block", "the zero-power update and DeletePrevStateValPower are not in the same block")
 		}
 		// the map the removals come from is the one the loop deleted from (same value), sorted
@@ -289,7 +289,7 @@ func checkPowerRankKey(r *Run) {
 		Instrs(f, func(in ssa.Instruction) {
 			if st, ok := in.(*ssa.Store); ok {
 				a, v := P.TermAt(st.Addr, st).String(), P.TermAt(st.Val, st).String()
-				if strings.HasSuffix(a, ")[0]") && v == "global:x/pos/types.StakedValidatorsKey[0]" {
+				if (strings.HasSuffix(a, ")[0]") || strings.HasSuffix(a, "][0]")) && v == "global:x/pos/types.StakedValidatorsKey[0]" {
 					sawPrefix = true
 				}
 				if strings.HasPrefix(v, "^types.CopyBytes(param:validator.Address)[") && strings.HasPrefix(a, "&types.CopyBytes(param:validator.Address)[") && a[1:] == v[1:] {
@@ -306,10 +306,10 @@ func checkPowerRankKey(r *Run) {
 		r.Check(sawInv, "C05-R3", "rankKey/address-inverted", P.Pos(f.Pos()), "every address byte is bit-inverted in place", "the address bytes are not bit-inverted (b = ^b) before being appended: ties would not break by address as documented")
 		okPow, okAddr := false, false
 		for _, c := range copies {
-			if reMatch(`^copy\(makeslice\(.*\)\[1, \(len\(addr:makeslice\[_, 8, _\]\) \+ 1\), _\], addr:makeslice\[_, 8, _\]\)$`, c) {
+			if reMatch(`^copy\((?:makeslice\(.*\)|addr:makeslice\[_, 29, _\])\[1, 9, _\], addr:makeslice\[_, 8, _\]\)$`, c) {
 				okPow = true
 			}
-			if reMatch(`^copy\(makeslice\(.*\)\[\(len\(addr:makeslice\[_, 8, _\]\) \+ 1\), _, _\], types\.CopyBytes\(param:validator\.Address\)\)$`, c) {
+			if reMatch(`^copy\((?:makeslice\(.*\)|addr:makeslice\[_, 29, _\])\[9, _, _\], types\.CopyBytes\(param:validator\.Address\)\)$`, c) {
 				okAddr = true
 			}
 		}
@@ -321,7 +321,7 @@ func checkPowerRankKey(r *Run) {
 		Instrs(g, func(in ssa.Instruction) {
 			if st, ok2 := in.(*ssa.Store); ok2 {
 				a, v := P.TermAt(st.Addr, st).String(), P.TermAt(st.Val, st).String()
-				if strings.HasPrefix(v, "^types.CopyBytes(param:key[(8 + 1), _, _])[") && a[1:] == v[1:] {
+				if strings.HasPrefix(v, "^types.CopyBytes(param:key[9, _, _])[") && a[1:] == v[1:] {
 					ok = true
 				}
 			}
